@@ -323,6 +323,33 @@ def opBluenoise (j : Json) : Except String Json := do
   -- float ties can be excluded
   pure (Json.mkObj [("samples", jlist jpairI r.samples), ("active", jnats r.active)])
 
+
+/-! ### C11: A* with IEEE doubles -/
+
+def opAstar (j : Json) : Except String Json := do
+  let adjL ← listOf (listOf pairN) (← field j "adj")
+  let hbits ← listOf (listOf nat) (← field j "h")
+  let adjA := adjL.toArray
+  let hA : Array (Array Float) := (hbits.map fun r => (r.map fun b => Float.ofBits (UInt64.ofNat b)).toArray).toArray
+  let adj : Nat → List (Nat × Nat) := fun p => adjA.getD p []
+  let h : Nat → Nat → Float := fun a b => (hA.getD a #[]).getD b 0.0
+  let queries ← listOf (fun q => do
+      pure (← nat (← field q "start"), ← nat (← field q "goal"), ← bool (← field q "early"), ← nat (← field q "maxits"))) (← field j "queries")
+  let res := queries.map fun q =>
+    match Path.path adj h (0.0 : Float) q.1 q.2.1 q.2.2.1 q.2.2.2 with
+    | none => Json.mkObj [("found", Json.bool false)]
+    | some (ns, es) => Json.mkObj [("found", Json.bool true), ("nodes", jnats ns), ("edges", jnats es),
+                                   ("valid", Json.bool (C11Exec.validChainB adj ns es))]
+  pure (Json.mkObj [("paths", Json.arr res.toArray)])
+
+def opMetric (j : Json) : Except String Json := do
+  let S ← int (← field j "S")
+  let pairs ← listOf (listOf pairI) (← field j "pairs")
+  let res := pairs.map fun pq =>
+    let a := pq.getD 0 (0, 0); let b := pq.getD 1 (0, 0)
+    Json.arr #[jint (Path.periodic2 S a b), jint (Path.euclid2 a b)]
+  pure (Json.mkObj [("d2", Json.arr res.toArray)])
+
 def dispatch (op : String) (j : Json) : Except String Json :=
   match op with
   | "plaquettes" => opPlaquettes j
@@ -338,6 +365,8 @@ def dispatch (op : String) (j : Json) : Except String Json :=
   | "bloch" => opBloch j
   | "marker" => opMarker j
   | "bluenoise" => opBluenoise j
+  | "astar" => opAstar j
+  | "metric" => opMetric j
   | "lateq" => opLatEq j
   | _ => throw "bad-op"
 
